@@ -73,7 +73,11 @@ class MultiTaskBCD(BaseSolver):
                 opt = dist_fix_point_bcd(
                     W, grad, lipschitz, datafit, penalty, all_feats
                 )
-            stop_crit = np.max(opt)
+            if self.fit_intercept:
+                intercept_opt = np.max(np.abs(datafit.intercept_update_step(Y, XW)))
+            else:
+                intercept_opt = 0.
+            stop_crit = max(np.max(opt), intercept_opt)
             if self.verbose:
                 print(f"Stopping criterion max violation: {stop_crit:.2e}")
             if stop_crit <= self.tol:
